@@ -289,11 +289,14 @@ def run(ctx):
                 c3.insert(channels()[1]())
                 c3.branch(1).add_to_group("g1")
             snap = simlib.snapshot(c3)
-            for sel in ([1, 2], [0, 1], "all"):
+            for sel in ([1, 2], [0, 1], "all", "part of branch 1"):
                 evals += 1
                 try:
                     with quiet():
-                        c3.branch(sel).set_ncomp(3)
+                        if sel == "part of branch 1":
+                            c3.branch(1).comp(0).set_ncomp(3)
+                        else:
+                            c3.branch(sel).set_ncomp(3)
                     accepted = True
                 except Exception:
                     accepted = False
@@ -303,6 +306,10 @@ def run(ctx):
                         viol.append({"kind": "a refused operation modified the module", "operation": f"branch({sel}).set_ncomp(3)", "counts": counts0,
                                      "changed": ch, "ncomp_per_branch": [int(x) for x in c3.ncomp_per_branch], "rows": len(c3.nodes)})
                         break
+                elif sel == "part of branch 1" and counts0[1] > 1:
+                    viol.append({"kind": "set_ncomp through a view of part of a branch was accepted", "counts": counts0,
+                                 "ncomp_per_branch": [int(x) for x in c3.ncomp_per_branch], "rows": len(c3.nodes)})
+                    break
                 else:
                     check_tables(c3, viol, {"counts": counts0}, f"branch({sel}).set_ncomp(3)")
                     break
@@ -440,6 +447,80 @@ def run(ctx):
         import traceback
         viol.append({"kind": "History correspondence could not be evaluated", "error": repr(ex)[:500], "trace": traceback.format_exc()[-500:], "no_failing_input_found": True})
 
+    # shared trainables whose groups are only PARTIALLY in the view that deletes them
+    try:
+        for key, mkt, mkd in (("radius", lambda c: c.branch("all"), lambda c: c.branch("all").comp(0)),
+                              ("length", lambda c: c.branch([0, 2]), lambda c: c.select(nodes=[1, 2, 7])),
+                              ("v", lambda c: c.branch("all").comp("all"), lambda c: c.branch(1))):
+            with quiet():
+                ct = jx.Cell([jx.Branch([comp] * 3) for _ in range(3)], parents=[-1, 0, 0])
+                mkt(ct).make_trainable(key)
+                before = [[sorted(set(int(i) for i in g if int(i) >= 0)) for g in np.asarray(inds).tolist()] for inds in ct.indices_set_by_trainables]
+                dv = mkd(ct)
+                inview = set(int(i) for i in dv._nodes_in_view)
+                dv.delete_trainables()
+            evals += 1
+            want = sorted(g2 for g2 in ([i for i in g if i not in inview] for tr in before for g in tr) if g2)
+            got = sorted(sorted(set(int(i) for i in g if int(i) >= 0)) for inds in ct.indices_set_by_trainables for g in np.asarray(inds).tolist())
+            got = [g for g in got if g]
+            nvals = sum(len(np.asarray(list(p.values())[0]).reshape(-1)) for p in ct.trainable_params)
+            if got != want or nvals != len(want) or int(ct.num_trainable_params) != len(want):
+                viol.append({"kind": "delete_trainables through a view that partially covers several parameter groups does not leave exactly the remaining rows of each group",
+                             "key": key, "groups_before": before, "rows_in_view": sorted(inview), "groups_after": got, "expected": want,
+                             "parameter_values": nvals, "num_trainable_params": int(ct.num_trainable_params)})
+            with quiet():
+                ct.record("v")
+                jx.integrate(ct, ct.get_parameters(), t_max=0.05)
+    except Exception as ex:
+        import traceback
+        viol.append({"kind": "partial deletion of shared trainables raised", "error": repr(ex)[:300], "trace": traceback.format_exc()[-500:]})
+
+    # recordings of several record() calls deleted through one view; networks of cells with DIFFERENT
+    # channels (the flag columns then have dtype object): deleting a channel through a view
+    try:
+        for rep in range(ctx.budget(3, 12)):
+            with quiet():
+                cl = jx.Cell([jx.Branch([comp] * 2) for _ in range(3)], parents=[-1, 0, 0])
+                calls = [rng.randrange(6) for _ in range(rng.randint(2, 5))]
+                for r in calls:
+                    cl.select(nodes=[r]).record("v")
+                vr = sorted(rng.sample(range(6), rng.randint(1, 5)))
+                cl.select(nodes=vr).delete_recordings()
+            evals += 1
+            left = [int(x) for x in cl.recordings.rec_index] if len(cl.recordings) else []
+            want = []
+            for r in calls:
+                if r not in vr and r not in want:
+                    want.append(r)
+            if left != want:
+                viol.append({"kind": "delete_recordings through a view did not remove exactly the view's recordings", "record_calls": calls, "rows_in_view": vr, "left": left, "expected": want})
+            CHS = channels()
+            with quiet():
+                sets = [rng.sample(CHS, rng.randint(1, 2)) for _ in range(3)]
+                cellsx = []
+                for k, chs in enumerate(sets):
+                    cx = jx.Cell([jx.Branch([comp] * 2) for _ in range(2)], parents=[-1, 0])
+                    for c_ in chs:
+                        cx.insert(c_())
+                    cellsx.append(cx)
+                netx = jx.Network(cellsx)
+            k = rng.randrange(3)
+            ch = rng.choice(sets[k])
+            rows_before = [int(i) for i in netx.nodes.index[netx.nodes[ch.__name__].fillna(False).astype(bool).to_numpy()]]
+            vrows = [4 * k, 4 * k + 1]            # branch 0 of cell k
+            with quiet():
+                netx.cell(k).branch(0).delete_channel(ch())
+            evals += 1
+            want_rows = [r for r in rows_before if r not in vrows]
+            got_rows = [int(i) for i in netx.nodes.index[netx.nodes[ch.__name__].fillna(False).astype(bool).to_numpy()]] if ch.__name__ in netx.nodes.columns else []
+            dsc = {"channels_per_cell": [[c_.__name__ for c_ in x] for x in sets], "deleted": ch.__name__, "through": f"cell({k}).branch(0)"}
+            if got_rows != want_rows or (want_rows and ch.__name__ not in [c_._name for c_ in netx.channels]):
+                viol.append(dict(dsc, kind="delete_channel through a view of a network removed the channel from other compartments too", rows_before=rows_before, rows_after=got_rows, expected=want_rows))
+            check_tables(netx, viol, dsc, "delete_channel through a view of a network")
+    except Exception as ex:
+        import traceback
+        viol.append({"kind": "recording / network delete_channel checks raised", "error": repr(ex)[:300], "trace": traceback.format_exc()[-500:]})
+
     # deletions undo their insertions
     for cls in channels():
         try:
@@ -502,7 +583,7 @@ def run(ctx):
     for v in viol:
         v.setdefault("finding_class", None)
     return {"evaluations": evals, "distinct_nontrivial": len(distinct),
-            "rule": "random histories (depth 2..7/12) over 14 operations (make_trainable on geometric keys, v, channel parameters and states; delete_trainables through views against an independent expectation) on random views of irregular cells, the first ones seeded with shared-column patterns (Na/K vt, K/Km eK and i_K, CaL/CaT eCa) on the whole module and on disjoint views (the channel is deleted through a view that does not contain its partner): after EVERY operation contiguity, channel registry, parameters-where-channel, currents, and the row references of recordings/inputs/groups/trainables are checked on the public tables; then integrate is compared with a module rebuilt from the tables only; insert+delete round trips for every channel; network histories with synaptic recordings and view-level deletions; distinct by (cell, history)",
+            "rule": "random histories (depth 2..7/12) over 14 operations (make_trainable on geometric keys, v, channel parameters and states; delete_trainables through views against an independent expectation) on random views of irregular cells, the first ones seeded with shared-column patterns (Na/K vt, K/Km eK and i_K, CaL/CaT eCa) on the whole module and on disjoint views (the channel is deleted through a view that does not contain its partner): after EVERY operation contiguity, channel registry, parameters-where-channel, currents, and the row references of recordings/inputs/groups/trainables are checked on the public tables; then integrate is compared with a module rebuilt from the tables only; insert+delete round trips for every channel; recordings of several record() calls deleted through one view; delete_channel through views of networks whose cells have different channels; network histories with synaptic recordings and view-level deletions; distinct by (cell, history)",
             "samples": samples, "violations": viol[:20], "traces_validated_against_impl": nmodel}
 
 
